@@ -51,6 +51,17 @@ check("C09", "exploration",
       "Trusted: NumPy's complex primal functions, the Ridders oracle (self-tested), closed-form real implementations of the round-trip programs.",
       "property-based testing (Hypothesis) with a realified numerical-differentiation oracle and metamorphic real/complex relations", "DESIGN.md C09")
 
+check("C04", "exploration",
+      "Every template case and generated array compositions in which both modes return: <g, jvp(v)> == <vjp(g), v> and linearity of both "
+      "maps at 1e-10 relative - exact algebraic identities between the two independently written rule tables, no finite differences.",
+      "Trusted: floating-point rounding model behind the 1e-10 tolerance; identities say nothing when both rule tables share the same mistake (C01/C02 cover that).",
+      "property-based testing (Hypothesis) with algebraic-identity oracles (adjointness, linearity)", "DESIGN.md C04")
+check("C05", "exploration",
+      "Every template case under kind mixing (real/complex, scalar carriers, broadcast partners, reduced-precision dtypes): vspace(result) == "
+      "vspace(argument) for make_vjp / elementwise_grad / grad / value_and_grad and vspace(tangent) == vspace(output) for make_jvp.",
+      "Trusted: autograd.core.vspace as the structure predicate (the suite's own assertion).",
+      "property-based testing (Hypothesis) with a structural (vector-space equality) oracle", "DESIGN.md C05")
+
 NOT_YET = {}
 
 
